@@ -1,4 +1,6 @@
 """C06 — let is lexically scoped: every binding construct is routed through the scope chain; scope entry/exit pairing."""
+CANON = True
+
 import ast
 
 from .. import compq, pyq
